@@ -1,13 +1,16 @@
 package main
 
 // time.Time model. A value is either a concrete native time.Time, or a
-// symbolic instant "Sym nanoseconds since the Unix epoch" (64-bit term).
-// Arithmetic on symbolic instants that could leave the int64 nanosecond range
-// ends the path as unsupported (harnesses bound their clocks accordingly).
+// symbolic instant. Symbolic instants are exact 72-bit integers counting
+// nanoseconds since the Unix epoch: T = Hi*2^64 + Lo with Lo an unsigned
+// 64-bit term and Hi a signed 8-bit term, so Add never loses information and
+// UnixNano() is the low word (which is what the Go runtime computes, wrapping
+// included). The wall-clock location of a symbolic instant is not modelled
+// (Format and friends are concrete-only).
 
 import (
 	"go/types"
-	"math"
+	"math/big"
 	"time"
 
 	"golang.org/x/tools/go/ssa"
@@ -15,48 +18,54 @@ import (
 
 type TimeV struct {
 	T   time.Time
-	Sym *Term
+	Sym *Term // Lo (64-bit); nil for concrete values
+	Hi  *Term // 8-bit signed high part
 	Set bool
 }
 
 func (in *Interp) timeNative(t TimeV, what string) time.Time {
 	if t.Sym != nil {
-		if t.Sym.IsConst() {
-			return time.Unix(0, t.Sym.Int())
+		if t.Sym.IsConst() && t.Hi.IsConst() {
+			hi := t.Hi.Int()
+			if (hi == 0 && int64(t.Sym.C) >= 0) || (hi == -1 && int64(t.Sym.C) < 0) {
+				return time.Unix(0, int64(t.Sym.C))
+			}
 		}
 		in.unsupported("symbolic time passed to %s", what)
 	}
 	return t.T
 }
 
-// nsTerm returns the instant as int64 nanoseconds if representable.
-func (in *Interp) timeNs(t TimeV) (*Term, bool) {
+var big2_64 = new(big.Int).Lsh(big.NewInt(1), 64)
+
+// parts returns (Hi, Lo) of any time value.
+func (in *Interp) timeParts(t TimeV) (*Term, *Term) {
 	if t.Sym != nil {
-		return t.Sym, true
+		return t.Hi, t.Sym
 	}
-	// representable iff round trip holds
-	if t.T.IsZero() {
-		return nil, false
-	}
-	ns := t.T.UnixNano()
-	if time.Unix(0, ns).Equal(t.T) {
-		return in.ts.BV(64, uint64(ns)), true
-	}
-	return nil, false
+	// exact nanoseconds since the epoch as a big integer
+	sec := big.NewInt(t.T.Unix())
+	ns := new(big.Int).Mul(sec, big.NewInt(1000000000))
+	ns.Add(ns, big.NewInt(int64(t.T.Nanosecond())))
+	// floor division by 2^64
+	hi := new(big.Int)
+	lo := new(big.Int)
+	hi.DivMod(ns, big2_64, lo) // Euclidean: lo >= 0
+	return in.ts.BV(8, uint64(hi.Int64())), in.ts.BV(64, lo.Uint64())
+}
+
+func (in *Interp) timeFromInt64(n *Term) TimeV {
+	ts := in.ts
+	hi := ts.Ite(ts.Cmp(OSlt, n, ts.BV(64, 0)), ts.BV(8, 0xff), ts.BV(8, 0))
+	return TimeV{Sym: n, Hi: hi, Set: true}
 }
 
 func (in *Interp) timeStructEq(a, b TimeV) *Term {
-	// == on time.Time compares representation; the package never does this
-	// on anything but zero values. Approximate by instant+location equality.
 	if a.Sym == nil && b.Sym == nil {
 		return in.ts.Bool(a.T == b.T)
 	}
-	na, oka := in.timeNs(a)
-	nb, okb := in.timeNs(b)
-	if oka && okb {
-		return in.ts.Eq(na, nb)
-	}
-	return in.ts.False
+	_, eq := in.cmpTimes(a, b)
+	return eq
 }
 
 // cmpTimes returns terms (a<b, a==b).
@@ -65,18 +74,22 @@ func (in *Interp) cmpTimes(a, b TimeV) (*Term, *Term) {
 	if a.Sym == nil && b.Sym == nil {
 		return ts.Bool(a.T.Before(b.T)), ts.Bool(a.T.Equal(b.T))
 	}
-	na, oka := in.timeNs(a)
-	nb, okb := in.timeNs(b)
-	switch {
-	case oka && okb:
-		return ts.Cmp(OSlt, na, nb), ts.Eq(na, nb)
-	case oka: // b concrete, outside int64 ns range
-		lo := time.Unix(0, math.MinInt64)
-		return ts.Bool(!b.T.Before(lo)), ts.False
-	default:
-		lo := time.Unix(0, math.MinInt64)
-		return ts.Bool(a.T.Before(lo)), ts.False
-	}
+	ha, la := in.timeParts(a)
+	hb, lb := in.timeParts(b)
+	eq := ts.And(ts.Eq(ha, hb), ts.Eq(la, lb))
+	lt := ts.Or(ts.Cmp(OSlt, ha, hb), ts.And(ts.Eq(ha, hb), ts.Cmp(OUlt, la, lb)))
+	return lt, eq
+}
+
+// timeAdd adds a signed 64-bit duration term.
+func (in *Interp) timeAdd(t TimeV, d *Term) TimeV {
+	ts := in.ts
+	h, l := in.timeParts(t)
+	l2 := ts.Bin(OAdd, l, d)
+	carry := ts.Ite(ts.Cmp(OUlt, l2, l), ts.BV(8, 1), ts.BV(8, 0))
+	dh := ts.Ite(ts.Cmp(OSlt, d, ts.BV(64, 0)), ts.BV(8, 0xff), ts.BV(8, 0))
+	h2 := ts.Bin(OAdd, ts.Bin(OAdd, h, dh), carry)
+	return TimeV{Sym: l2, Hi: h2, Set: true}
 }
 
 func (in *Interp) registerTime(reg func(string, extFn)) {
@@ -88,7 +101,7 @@ func (in *Interp) registerTime(reg func(string, extFn)) {
 			return TimeV{T: time.Unix(sec.Int(), nsec.Int()), Set: true}
 		}
 		if sec.IsConst() && sec.C == 0 {
-			return TimeV{Sym: nsec, Set: true}
+			return in.timeFromInt64(nsec)
 		}
 		in.unsupported("time.Unix with symbolic seconds")
 		return nil
@@ -106,7 +119,8 @@ func (in *Interp) registerTime(reg func(string, extFn)) {
 	reg("(time.Time).IsZero", func(in *Interp, fr *frame, fn *ssa.Function, args []Value) Value {
 		t := tv(args[0])
 		if t.Sym != nil {
-			return ts.False
+			_, eq := in.cmpTimes(t, TimeV{})
+			return eq
 		}
 		return ts.Bool(t.T.IsZero())
 	})
@@ -119,21 +133,21 @@ func (in *Interp) registerTime(reg func(string, extFn)) {
 	})
 	reg("(time.Time).In", func(in *Interp, fr *frame, fn *ssa.Function, args []Value) Value {
 		t := tv(args[0])
-		if t.Sym != nil {
-			return t
-		}
 		loc := in.locationOf(args[1])
 		if loc == nil {
 			in.goPanic(fr, Str{S: "time: missing Location in call to Time.In"}, "time: missing Location in call to Time.In")
+		}
+		if t.Sym != nil {
+			return t
 		}
 		return TimeV{T: t.T.In(loc), Set: true}
 	})
 	reg("(time.Time).Location", func(in *Interp, fr *frame, fn *ssa.Function, args []Value) Value {
 		t := tv(args[0])
 		if t.Sym != nil {
-			return &Native{V: time.Local}
+			return in.locNative(time.UTC)
 		}
-		return &Native{V: t.T.Location()}
+		return in.locNative(t.T.Location())
 	})
 	reg("(time.Time).Add", func(in *Interp, fr *frame, fn *ssa.Function, args []Value) Value {
 		t := tv(args[0])
@@ -141,42 +155,24 @@ func (in *Interp) registerTime(reg func(string, extFn)) {
 		if t.Sym == nil && d.IsConst() {
 			return TimeV{T: t.T.Add(time.Duration(d.Int())), Set: true}
 		}
-		n, ok := in.timeNs(t)
-		if !ok {
-			in.unsupported("Time.Add on out-of-range concrete time with symbolic duration")
-		}
-		sum := ts.Bin(OAdd, n, d)
-		// signed overflow check
-		ovf := ts.Or(
-			ts.AndN(ts.Cmp(OSle, ts.BV(64, 0), n), ts.Cmp(OSle, ts.BV(64, 0), d), ts.Cmp(OSlt, sum, ts.BV(64, 0))),
-			ts.AndN(ts.Cmp(OSlt, n, ts.BV(64, 0)), ts.Cmp(OSlt, d, ts.BV(64, 0)), ts.Cmp(OSle, ts.BV(64, 0), sum)))
-		if in.branch(ovf, nil) {
-			in.unsupported("Time.Add leaves the int64 nanosecond range (symbolic)")
-		}
-		return TimeV{Sym: sum, Set: true}
+		return in.timeAdd(t, d)
 	})
 	reg("(time.Time).Sub", func(in *Interp, fr *frame, fn *ssa.Function, args []Value) Value {
 		a, b := tv(args[0]), tv(args[1])
 		if a.Sym == nil && b.Sym == nil {
 			return in.mkInt(int64(a.T.Sub(b.T)))
 		}
-		na, oka := in.timeNs(a)
-		nb, okb := in.timeNs(b)
-		if !oka || !okb {
-			in.unsupported("Time.Sub with out-of-range concrete time")
-		}
-		diff := ts.Bin(OSub, na, nb)
-		ovf := ts.Or(
-			ts.AndN(ts.Cmp(OSle, ts.BV(64, 0), na), ts.Cmp(OSlt, nb, ts.BV(64, 0)), ts.Cmp(OSlt, diff, ts.BV(64, 0))),
-			ts.AndN(ts.Cmp(OSlt, na, ts.BV(64, 0)), ts.Cmp(OSle, ts.BV(64, 0), nb), ts.Cmp(OSle, ts.BV(64, 0), diff)))
+		ha, la := in.timeParts(a)
+		hb, lb := in.timeParts(b)
+		ld := ts.Bin(OSub, la, lb)
+		borrow := ts.Ite(ts.Cmp(OUlt, la, lb), ts.BV(8, 1), ts.BV(8, 0))
+		hd := ts.Bin(OSub, ts.Bin(OSub, ha, hb), borrow)
+		// in range iff hd is the sign extension of ld
+		neg := ts.Cmp(OSlt, ld, ts.BV(64, 0))
+		inRange := ts.Or(ts.And(ts.Eq(hd, ts.BV(8, 0)), ts.Not(neg)), ts.And(ts.Eq(hd, ts.BV(8, 0xff)), neg))
 		// saturating as documented
-		if in.branch(ovf, nil) {
-			if in.branch(ts.Cmp(OSlt, na, nb), nil) {
-				return in.mkInt(math.MinInt64)
-			}
-			return in.mkInt(math.MaxInt64)
-		}
-		return diff
+		sat := ts.Ite(ts.Cmp(OSlt, hd, ts.BV(8, 0)), ts.BV(64, 1<<63), ts.BV(64, 1<<63-1))
+		return ts.Ite(inRange, ld, sat)
 	})
 	reg("(time.Time).After", func(in *Interp, fr *frame, fn *ssa.Function, args []Value) Value {
 		lt, _ := in.cmpTimes(tv(args[1]), tv(args[0]))
@@ -191,6 +187,10 @@ func (in *Interp) registerTime(reg func(string, extFn)) {
 		return eq
 	})
 	reg("(time.Time).Format", func(in *Interp, fr *frame, fn *ssa.Function, args []Value) Value {
+		if t := tv(args[0]); t.Sym != nil && !(t.Sym.IsConst() && t.Hi.IsConst()) {
+			// the rendering of a symbolic instant is only ever used in error text
+			return Str{Opq: true}
+		}
 		return Str{S: in.timeNative(tv(args[0]), "Time.Format").Format(in.goString(args[1], "Time.Format"))}
 	})
 	reg("(time.Time).String", func(in *Interp, fr *frame, fn *ssa.Function, args []Value) Value {
